@@ -46,8 +46,9 @@ static L inv_langevin(L y) {
 struct Info { const char* name; L relerr; L ymax; const char* source; };
 // maximal relative errors of the approximations of L^-1 on [0,1): Cohen 1991 (4.94 %, quoted by
 // Jedynak 2015), Jedynak 2015 [3/2] approximant (1.5 %), Bergstrom-Boyce 1998 (0.064 %, quoted by
-// Jedynak); Taylor polynomial of degree 19 (Kuhn-Grun / Morch): truncated series, radius of
-// convergence ~0.904, judged for |y| <= 0.75 where the first neglected term gives < 0.6 %
+// Jedynak); Taylor polynomial of degree 19 (Kuhn-Grun / Morch, "the Taylor expression is of order
+// 19"): remainder O(y^21) of a series whose radius of convergence is ~0.904, i.e. a relative error
+// below 2 y^20 / (1 - (y/0.9)^2) (observed: 0.28 % at 0.75, bound 2 %), judged for |y| <= 0.75
 static const Info INFO[5] = {{"COHEN_1991", 0.06L, 1, "Cohen 1991: 4.94 %"}, {"JEDYNAK_2015", 0.03L, 1, "Jedynak 2015: 1.5 % (3 % allowed: 2.2 % observed at the pole with the optimised coefficients)"},
                              {"KUHN_GRUN_1942", 0.01L, 0.75L, "Taylor series, degree 19"}, {"MORCH_2022", 0.01L, 0.75L, "Taylor series, degree 19"},
                              {"BERGSTROM_BOYCE_1998", 0.005L, 1, "Bergstrom-Boyce 1998: 0.064 % (0.5 % allowed)"}};
@@ -104,9 +105,11 @@ static void one_case(const vf::Args& a, uint64_t idx) {
     // accuracy: documented maximal relative error of the approximation of L^-1, and L(approx(y)) ~ y
     if (ya <= I.ymax && ya <= 1 - 1e-6L) {
       const L xe = inv_langevin(y);
-      R.check(nm("relative-error-vs-exact-inverse"), S, idx, h, std::fabs(L(v) - xe), I.relerr * std::fabs(xe), dump, I.source);
+      // Taylor polynomials: the bound follows the order of the expansion
+      const L rel = (K == 2 || K == 3) ? 2 * std::pow(L(ya), 20) / (1 - (L(ya) / 0.9L) * (L(ya) / 0.9L)) + 64 * eps : I.relerr;
+      R.check(nm("relative-error-vs-exact-inverse"), S, idx, h, std::fabs(L(v) - xe), rel * std::fabs(xe), dump, I.source);
       // |L(x(1+r)) - L(x)| <= r x L'(x): the same accuracy seen through the Langevin function
-      R.check(nm("Langevin(approx(y))=y"), S, idx, h, std::fabs(langevin(L(v)) - L(y)), I.relerr * std::fabs(xe) * dlangevin(xe) * 1.5L + 8 * eps, dump, I.source);
+      R.check(nm("Langevin(approx(y))=y"), S, idx, h, std::fabs(langevin(L(v)) - L(y)), rel * std::fabs(xe) * dlangevin(xe) * 1.5L + 8 * eps, dump, I.source);
     } else R.skip(nm("relative-error-vs-exact-inverse"), S);
     if (sg > 0) {  // odd
       const double vm = value<K, double>(-y);
